@@ -17,7 +17,7 @@ MECH = {
     "C05": ["mechanisms/Links", "mechanisms/ArenaImpl"], "C12": ["mechanisms/Links", "mechanisms/ArenaImpl"],
     "C06": ["mechanisms/Stamp", "mechanisms/Stamp_real", "mechanisms/ArenaImpl"], "C07": ["mechanisms/FreeList", "mechanisms/Stamp", "mechanisms/ArenaImpl"],
     "C08": ["mechanisms/FreeList", "mechanisms/ArenaImpl"], "C09": ["mechanisms/Walk"], "C10": ["mechanisms/DEIter"],
-    "C14": ["mechanisms/IndentWriter"],
+    "C14": ["mechanisms/IndentWriter"], "C13": ["mechanisms/CloneFrom"],
 }
 MECH_THOROUGH = {"mechanisms/Links": "mechanisms/Links5", "mechanisms/Readers": "mechanisms/Readers3", "mechanisms/ArenaImpl": "mechanisms/ArenaImpl4"}
 MECH_WHAT = {
@@ -28,6 +28,7 @@ MECH_WHAT = {
     "mechanisms/Stamp_real": "Stamp.tla with the real MAXSTAMP = 32767 for one slot (whole counter range and beyond its end)",
     "mechanisms/FreeList": "FreeList.tla: the intrusive first/last/NextFree list refines the abstract FIFO of reusable slots: no cycle, no lost or doubled slot, no live payload overwritten",
     "mechanisms/IndentWriter": "IndentWriter.tla: line_state / indent stack / open_item / close_item / write_str driven by the traversal loop; for every forest up to 4 nodes, every start node and every assignment of 1-3 lines the lines written equal Printer!Rendering",
+    "mechanisms/CloneFrom": "CloneFrom.tla: two stored arenas (payload-or-free-list-link and stamp per slot, both ends of the free list) with independent lives; dst.clone_from(&src) as the derived Clone does it, then the same calls on both: the copy equals the source and stays equal, its free list is a proper chain (the variants stale_tail / forget_stamp, which reuse the destination's storage and miss one field, fail - they are the model-level reading of seeded changes R6-C07-m1 and R6-C11-m2)",
     "mechanisms/DEIter": "DEIter.tla: head/tail cursor machine of the double-ended iterators, all three constructors, every pull word up to n+2 on chains up to 6, with and without parent: refines the deque",
 }
 
